@@ -123,8 +123,13 @@ def compile_and_instrument(u, registry, tu_path, outdir, tag, defs, r=None):
     cmd = ['goto-instrument', '--dfcc', 'gv_h']
     if u.kind in ('contract',) or (u.kind == 'bounded' and u.contract and u.src):
         cmd += ['--enforce-contract', u.fn]
+    with open(tu_path) as tf:
+        tu_text = tf.read()
     for nm in u.uses:
-        cmd += ['--replace-call-with-contract', registry[nm].fn]
+        fn = registry[nm].fn
+        # a callee that is declared but never called is not in the goto model
+        if len(re.findall(r'(?<![\w])%s\s*\(' % re.escape(fn), tu_text)) >= 2:
+            cmd += ['--replace-call-with-contract', fn]
     if u.kind != 'bounded':
         cmd += ['--apply-loop-contracts']
     cmd += [a, b]
@@ -232,7 +237,7 @@ def portfolio(runs, outdir, timeout):
                 if results is None:
                     why.append('%s: no results (rc=%s): %s' % (nm, p.returncode, text[-800:]))
                     continue
-                if nm == 'sat-refuter':
+                if nm.startswith('sat-refuter'):
                     if any(x['status'] == 'FAILURE' for x in results):
                         return nm, results, text, ''
                     if status == 'success':
@@ -295,6 +300,10 @@ def run_unit(u, registry, outroot):
         # whichever answers first is taken.
         runs.append(('cvc5-intblast', base + ['--cvc5', '--external-smt2-solver', IB, '--trace', '--json-ui']))
         runs.append(('sat-refuter', base + ['--stop-on-fail', '--trace', '--json-ui']))
+        if u.small or (u.harness and 'GV_SMALL(' in u.harness):
+            bs, err = compile_and_instrument(u, registry, tu_path, outdir, '_small', ['GV_SMALLDOM'])
+            if bs is not None:
+                runs.append(('sat-refuter-small', ['cbmc', bs] + checks + list(u.flags) + ['--stop-on-fail', '--trace', '--json-ui']))
     elif u.backend == 'smt':
         # cvc5 on the bit-vector + array formula (no int-blasting): much
         # smaller than CBMC's propositional array encoding for symbolic-size
